@@ -11,8 +11,8 @@ CONTRACT = ['C01_Fits', 'C01_NoSilentTruncation', 'C02_NoPanic', 'C02_PastEndIsE
 
 def consts(thorough):
     if thorough:
-        return dict(Sizes=set(range(12, 49)), RowLens={0, 1, 3, 5, 9}, MaxRows=5, MaxIdx=7, Tpls={1, 4, 9}, Menus={0, 3, 8}, ErrLens={0, 5}, ValLens={0, 2})
-    return dict(Sizes=set(range(18, 35)), RowLens={0, 1, 3, 5}, MaxRows=4, MaxIdx=6, Tpls={4}, Menus={0, 3}, ErrLens={0, 5}, ValLens={0})
+        return dict(Sizes=set(range(12, 49)), RowLens={0, 1, 3, 5, 9}, MaxRows=5, MaxIdx=7, Tpls={1, 4, 9}, Menus={0, 3, 8}, ErrLens={0, 5}, ValLens={0, 2}, Msinks={False, True})
+    return dict(Sizes=set(range(18, 35)), RowLens={0, 1, 3, 5}, MaxRows=4, MaxIdx=6, Tpls={4}, Menus={0, 3}, ErrLens={0, 5}, ValLens={0}, Msinks={False, True})
 
 
 def trace_cfg(invs):
